@@ -129,6 +129,16 @@ fn sort_natural(v: &mut Vec<(&String, &String)>)
         (forall|i: int, j: int| 0 <= i < j < old(v)@.len() ==> #[trigger] old(v)@[i] != #[trigger] old(v)@[j]) ==> (forall|i: int, j: int| 0 <= i < j < final(v)@.len() ==> #[trigger] final(v)@[i] != #[trigger] final(v)@[j]),
         forall|i: int, j: int| 0 <= i < j < final(v)@.len() ==> tle(pv(#[trigger] final(v)@[i]), pv(#[trigger] final(v)@[j])),
 { v.sort() }
+// slice::sort_by on the second component: a permutation ordered by that component alone (equal texts keep whatever order collect() gave them)
+pub uninterp spec fn tle_text(a: Seq<char>, b: Seq<char>) -> bool;
+#[verifier::external_body]
+fn sort_by_second(v: &mut Vec<(&String, &String)>)
+    ensures final(v)@.len() == old(v)@.len(),
+        forall|i: int| 0 <= i < old(v)@.len() ==> exists|j: int| 0 <= j < final(v)@.len() && final(v)@[j] == #[trigger] old(v)@[i],
+        forall|j: int| 0 <= j < final(v)@.len() ==> exists|i: int| 0 <= i < old(v)@.len() && old(v)@[i] == #[trigger] final(v)@[j],
+        (forall|i: int, j: int| 0 <= i < j < old(v)@.len() ==> #[trigger] old(v)@[i] != #[trigger] old(v)@[j]) ==> (forall|i: int, j: int| 0 <= i < j < final(v)@.len() ==> #[trigger] final(v)@[i] != #[trigger] final(v)@[j]),
+        forall|i: int, j: int| 0 <= i < j < final(v)@.len() ==> tle_text((#[trigger] final(v)@[i]).1@, (#[trigger] final(v)@[j]).1@),
+{ v.sort_by(|a, b| a.1.cmp(b.1)) }
 // whatever order collect() produced, the sorted drain sequence is the same
 pub proof fn lemma_sorted_entries_unique(m: Map<String, String>, s1: Seq<(&String, &String)>, s2: Seq<(&String, &String)>)
     requires is_sorted_entries(m, s1), is_sorted_entries(m, s2)
@@ -445,6 +455,9 @@ def build(repo):
         pre = re.sub(r"//[^\n]*\n", "\n", pre)
         pre2, n1 = re.subn(r"res\.1\.iter\(\)\.collect\(\)", "collect_entries(&res.1)", pre)
         pre2, n2 = re.subn(r"(\w+)\.sort\(\);", r"sort_natural(&mut \1);", pre2)
+        # a sort on the second component only (the literal's text): R13 stub with the specification of a stable sort by that key (ties keep the collected order)
+        pre2, n3 = re.subn(r"(\w+)\.sort_by\(\|a, b\| a\.1\.cmp\(b\.1\)\);", r"sort_by_second(&mut \1);", pre2)
+        n2 += n3
         pf.log.append("R8 drain block of %s: pre-statements %r, loop over %r (collect x%d, sort x%d rewritten); loop body dropped" % (fname, " ".join(pre.split()), it_expr, n1, n2))
         if it_expr.startswith("&"):
             it_expr = "(%s).iter()" % it_expr[1:]      # R12
@@ -480,7 +493,7 @@ def build(repo):
             invariant is_sorted_entries(res.1@, it.snapshot.remaining()), //@ C05:drain-%(k)d-order-fixed
         { }
     }
-""" % {"fname": fname, "k": k, "ln": pf.line0, "pre": re.sub(r"(sort_natural\(&mut literals\);)", r"let ghost __c0 = literals@;\n        \1", pre2) if n2 else pre2 + "\n        let ghost __c0 = Seq::<(&String, &String)>::empty(); let literals: Vec<(&String, &String)> = Vec::new();", "var": var, "it": it_expr})
+""" % {"fname": fname, "k": k, "ln": pf.line0, "pre": re.sub(r"((?:sort_natural|sort_by_second)\(&mut literals\);)", r"let ghost __c0 = literals@;\n        \1", pre2) if n2 else pre2 + "\n        let ghost __c0 = Seq::<(&String, &String)>::empty(); let literals: Vec<(&String, &String)> = Vec::new();", "var": var, "it": it_expr})
     text_out = common.PRELUDE + common.header_comment(NAME, cuts) + "verus! {\n" + SPECS + "\n".join(comparators) + \
         "impl CompilerState {\n" + "\n".join(parts) + "\n" + "\n".join(site_fns) + "\n" + "\n".join(drains) + "\n}\n" + common.CANARY + "\n} // verus!\n"
     u.text[None] = text_out
